@@ -929,7 +929,11 @@ impl LunarDay {
     } else if !solar.is_before(solar_shun_bai2) {
       offset = solar.subtract(solar_shun_bai2);
     } else if solar.is_before(solar_shun_bai) {
-      offset = 8 + solar_shun_bai.subtract(solar);
+      // 年初还没到冬至附近的甲子日：仍是上一年夏至附近甲子日起的逆行，接着上一年年末往下排
+      let xia_zhi_solar0: SolarDay = dong_zhi.next(-12).get_julian_day().get_solar_day();
+      let xia_zhi_index0: isize = xia_zhi_solar0.get_lunar_day().get_sixty_cycle().get_index() as isize;
+      let solar_ni_zi0: SolarDay = xia_zhi_solar0.next(if xia_zhi_index0 > 29 { 60 - xia_zhi_index0 } else { -xia_zhi_index0 });
+      offset = 8 - solar.subtract(solar_ni_zi0);
     }
     NineStar::from_index(offset)
   }
